@@ -6,6 +6,9 @@ CONSTANTS
   Wipes = {256, 119}
   Variants = {"asis", "fixed"}
   Cuts = FALSE
+  SectorSize = 32
+  MaxFaults = 1
+  MaxRetry = 1
   Kinds = {"T2", "T1S"}
   Sizes = {1, 3}
   Pads = {1}
